@@ -256,6 +256,9 @@ pub fn run(args: &Args, r: &mut Report) {
         let (url, class) = gen_url(&mut rng);
         case.setup.service_url = url.clone();
         case.shape.push(class);
+        // the handler carries its own keys: Config::omaha_public_keys is informational and may be absent
+        case.setup.keys_in_config = !rng.chance(1, 4);
+        case.shape.push(format!("cfgkeys={}", case.setup.keys_in_config));
         case.sched = Sched::Random;
         let run = run_case(&case, &mut rng);
         r.eval(case.shape_key(), true);
